@@ -30,6 +30,9 @@ def obligations(tier):
         fix = {"dry": dry, "set": sv, "ign": ign, "gate": gate}
         label = ",".join(k if v else "!" + k for k, v in fix.items())
         obs.append(Ob(f"L3.update_skeleton[{label}]", "c10.py", "update_skeleton", {"fix": fix}, timeout=t))
+    # the dirty-check step itself, for both command sets (harness/c11.py)
+    obs.append(Ob("L0.dirty_gate[git, 1 line]", "c11.py", "dirty_gate", {"n": 1, "k": [0, 0, 0]}, timeout=t))
+    obs.append(Ob("L0.dirty_gate_hg", "c11.py", "dirty_gate_hg", {}, timeout=t))
     for tool in ("git", "hg"):
         obs.append(Ob(f"L4.get_tags_fetch[{tool}]", "c10.py", "get_tags_fetch", {"tool": tool}, timeout=t))
         obs.append(Ob(f"L4.push_needs_remote[{tool}]", "c10.py", "push_needs_remote", {"tool": tool}, timeout=t))
